@@ -300,9 +300,10 @@ def r3_evaluation_dispatch(ctx: Ctx) -> None:
     if inv is None:
         ctx.fail("eval_expression[unary ~]", "no arm")
     else:
-        if not (len(inv) == 1 and isinstance(inv[0], ast.If)):
+        inv_ifs = [s_ for s_ in inv if isinstance(s_, ast.If)]
+        if not (len(inv_ifs) == 1 and all(isinstance(s_, (ast.If, ast.Assign, ast.AnnAssign)) for s_ in inv)):
             raise AnalysisError("eval_expression: the `~` arm is not a threshold if-chain; its widths cannot be read off")
-        iarms, ielse = if_chain(inv[0])
+        iarms, ielse = if_chain(inv_ifs[0])
         widths = []
         from ..match import canon as _cn
         for test, body in iarms:
